@@ -31,9 +31,12 @@ class _ConvAffineFusionBase(pattern.RewriteRuleClassBase):
             return check_result.fail("The weight of Conv should be constant")
         if get_const_value(b) is None:
             return check_result.fail("The bias of Conv should be constant")
-        if get_singleton_value(scale) is None:
+        # A one-element tensor of higher rank than the Conv input/output would add dimensions
+        # when it is broadcast by Mul / Add.
+        allowed_ranks = range(len(get_const_value(w).shape) + 1)
+        if get_singleton_value(scale, rank=allowed_ranks) is None:
             return check_result.fail("Operand for Mul should be constant scalar value")
-        if get_singleton_value(offset) is None:
+        if get_singleton_value(offset, rank=allowed_ranks) is None:
             return check_result.fail("Operand for Add should be constant scalar value")
         return check_result
 
@@ -61,8 +64,10 @@ class AffineConvFusion(_ConvAffineFusionBase):
         offset: ir.Value,
         conv_out: ir.Value,
     ) -> ir.Value:
-        scale_value = scale.const_value.numpy()
-        offset_value = offset.const_value.numpy()
+        # Use 0-d values: a one-element tensor such as [1, 1, 1, 1] must not change the
+        # shape of the fused weight and bias.
+        scale_value = scale.const_value.numpy().reshape(())
+        offset_value = offset.const_value.numpy().reshape(())
         w_value = w.const_value.numpy()
         b_value = b.const_value.numpy()
         scaled_w_value = op.initializer(ir.tensor(w_value * scale_value), w.name + "_scaled")
@@ -93,8 +98,10 @@ class ConvAffineFusion(_ConvAffineFusionBase):
         offset: ir.Value,
         conv_out: ir.Value,
     ) -> ir.Value:
-        scale_value = scale.const_value.numpy()
-        offset_value = offset.const_value.numpy()
+        # Use 0-d values: a one-element tensor such as [1, 1, 1, 1] must not change the
+        # shape of the fused weight and bias.
+        scale_value = scale.const_value.numpy().reshape(())
+        offset_value = offset.const_value.numpy().reshape(())
         w_value = w.const_value.numpy()
         b_value = b.const_value.numpy()
         scaled_w_weight = op.initializer(ir.tensor(w_value * scale_value), w.name + "_scaled")
